@@ -729,6 +729,11 @@ impl Exec {
                     return;
                 }
             }
+            for x in [SideId::A, SideId::B] {
+                if self.snap_ref(x).map_or(false, |s| !s.incoming_text.is_empty()) {
+                    self.apply(&format!("read {}", x.name()), out);
+                }
+            }
             let data_ok = self.b.delivered == self.a.submitted && self.a.delivered == self.b.submitted;
             let quiet = [SideId::A, SideId::B].iter().all(|x| self.snap_ref(*x).map_or(true, |s| s.retransmit.is_empty() && s.outgoing_text.is_empty()));
             if data_ok && quiet {
